@@ -193,17 +193,17 @@ def ref_lp(cv, lens, line, box=None):
     A = matrix([[r[j] for r in Arows] for j in range(n)]) if Arows else matrix(0.0, (0, n))
     hm, bm = matrix(h), matrix(b, (len(b), 1), 'd')
     with contextlib.redirect_stdout(io.StringIO()):
-        sol = solvers.lp(c, G, hm, A, bm, solver='glpk', options={'glpk': {'msg_lev': 'GLP_MSG_OFF'}})
+        sol = solvers.lp(c, G, hm, A, bm, solver='glpk', options={'glpk': {'msg_lev': 'GLP_MSG_OFF', 'tm_lim': 5000}})
         if sol['status'] == 'optimal':
             return 'optimal', sol['x'][n - 1], list(sol['x'])
         if sol['status'] in ('primal infeasible', 'dual infeasible'):
             # a program can be both: report every status that is true of it
             st = set([sol['status']])
-            feas = solvers.lp(matrix(0.0, (n, 1)), G, hm, A, bm, solver='glpk', options={'glpk': {'msg_lev': 'GLP_MSG_OFF'}})
+            feas = solvers.lp(matrix(0.0, (n, 1)), G, hm, A, bm, solver='glpk', options={'glpk': {'msg_lev': 'GLP_MSG_OFF', 'tm_lim': 5000}})
             if feas['status'] == 'primal infeasible': st.add('primal infeasible')
             I = spmatrix(1.0, range(n), range(n))
             ray = solvers.lp(c, matrix([G, matrix(I), -matrix(I)]), matrix([0.0 * hm, matrix(1.0, (2 * n, 1))]), A, 0.0 * bm, solver='glpk',
-                             options={'glpk': {'msg_lev': 'GLP_MSG_OFF'}})
+                             options={'glpk': {'msg_lev': 'GLP_MSG_OFF', 'tm_lim': 5000}})
             if ray['status'] == 'optimal' and ray['x'][n - 1] < -1e-9: st.add('dual infeasible')
             return '+'.join(sorted(st)), None, None
     return sol['status'], None, None
@@ -233,7 +233,7 @@ def correspond(ctx):
     if not have_glpk:
         ctx.broke('glpk', 'the GLPK extension is not importable: the reference program cannot be solved'); return
     saved_opts = dict(solvers.options)
-    solvers.options['glpk'] = {'msg_lev': 'GLP_MSG_OFF'}
+    solvers.options['glpk'] = {'msg_lev': 'GLP_MSG_OFF', 'tm_lim': 5000}          # GLPK's simplex can cycle on degenerate programs: bounded, 'unknown' is inconclusive
     solvers.options['show_progress'] = False
     rng = random.Random(ctx.seed * 131 + 12)
     n = 120 if ctx.quick() else 2500
